@@ -337,7 +337,7 @@ def main(tier, seed, only=None):
         rep.function(f)
     jobs = [("H19a", "H19a:table4", h19a(4), "lira")]
     if tier == "thorough":
-        jobs.append(("H19a", "H19a:table104", h19a(104), "lira"))
+        jobs.append(("H19a", "H19a:table8", h19a(8), "lira"))     # the fallback loop forks on every entry: 2^n paths
     jobs.append(("H19b", "H19b", h19b, "lira"))
     jobs.append(("H19c", "H19c:identity", h19c_identity, "lira"))
     sets = ELEMENT_SETS[:3] if tier == "quick" else ELEMENT_SETS
@@ -350,7 +350,7 @@ def main(tier, seed, only=None):
         rep.merge_stats(explore(fn, name, workers=8, timeout_ms=20000, budget_s=900, logic=logic), fam)
     if not only:
         rep.require_reached("H19a")
-    rep.bounds = {"H19a": "tables of length 4 (104 thorough) whose entries are Float64 symbols (NaN or finite positive), Z by fork",
+    rep.bounds = {"H19a": "tables of length 4 (8 thorough: the comprehension forks on every entry, 2^n paths) whose entries are Float64 symbols (NaN or finite positive), Z by fork",
                   "H19b": "real ASE tables, every Z in 1..103, three presets", "H19c": f"custom arrays of lengths {table_sizes()}; consumers on {sets} with symbolic positions/threshold"}
     rep.stubs = ["covalent_radii / vdw_radii replaced by Float64 symbols in the module namespace (H19a)", "get_displacement_tensor / get_clusters / get_distances recorders, PeriodicFinder stub returning no region (H19c)"]
     rep.assumptions = ["z3 FloatingPoint theory = IEEE 754 binary64 comparisons"]
